@@ -4288,12 +4288,17 @@ MHD_get_timeout64 (struct MHD_Daemon *daemon,
   {
     if (0 != pos->connection_timeout_ms)
     {
+      const uint64_t deadline =
+        pos->last_activity + pos->connection_timeout_ms;
+      /* Check whether 'deadline' is before 'earliest_deadline'.
+         Any of them can be already in the past, e.g. when timed out
+         connection is waiting for the cleanup. */
       if ( (NULL == earliest_tmot_conn) ||
-           (earliest_deadline - pos->last_activity >
-            pos->connection_timeout_ms) )
+           ( (earliest_deadline != deadline) &&
+             (earliest_deadline - deadline < UINT64_MAX / 2) ) )
       {
         earliest_tmot_conn = pos;
-        earliest_deadline = pos->last_activity + pos->connection_timeout_ms;
+        earliest_deadline = deadline;
       }
     }
   }
